@@ -149,12 +149,13 @@ impl Fst {
             .array
             .iter()
             .zip(sfs.iter_frequencies())
-            .take(sfs.elements() - 1)
+            .take(sfs.elements().saturating_sub(1))
             .skip(1);
 
         let shape = sfs.shape();
-        let n_i_sub = (shape[0] - 2) as f64;
-        let n_j_sub = (shape[1] - 2) as f64;
+        // In floating point, so that degenerate axes give NaN/inf rather than underflowing
+        let n_i_sub = shape[0] as f64 - 2.0;
+        let n_j_sub = shape[1] as f64 - 2.0;
 
         let (num, denom) = polymorphic_iter
             .map(|(v, fs)| {
